@@ -29,7 +29,7 @@ type c14 struct{ base }
 
 func init() {
 	runner.Register(&c14{base{id: "C14", level: "exploration",
-		rule: "for value trees from C10's boundary set and seeded trees: EVERY mutable location reachable from the SDK structures (each *string / *bool target, each string/bool member field, each []byte element, each slice element, each map entry; found generically with reflect) is poked, one location per fresh client: every case runs on one of three key flavours (S hash; B hash + B range; N hash + S range), so the KEY attributes are poked too. R1 inputs – after PutItem / UpdateItem (Key and ExpressionAttributeValues, on an existing item and as an upsert that creates the item from the request Key) / GetItem and DeleteItem keys / BatchWriteItem returned, poking the request structure must not change what GetItem and Scan return; R2 outputs – poking the structure returned by GetItem / Query / Scan / BatchGetItem / UpdateItem / DeleteItem(ALL_OLD) / ConditionalCheckFailed.Item must not change a later read; R3 – a result held by the caller must not change when the item is later overwritten, updated in place, deleted or the table cleared. non-trivial = the poked location lies inside a nested container or behind a pointer; distinct by (adapter, operation, path-kind sequence). Metadata inputs include an UpdateTable request carrying a BillingMode and an index creation without throughput.",
+		rule: "for value trees from C10's boundary set and seeded trees: EVERY mutable location reachable from the SDK structures (each *string / *bool target, each string/bool member field, each []byte element, each slice element, each map entry; found generically with reflect) is poked, one location per fresh client: every case runs on one of three key flavours (S hash; B hash + B range; N hash + S range), so the KEY attributes are poked too. R1 inputs – after PutItem / UpdateItem (Key and ExpressionAttributeValues, on an existing item and as an upsert that creates the item from the request Key) / GetItem and DeleteItem keys / BatchWriteItem returned, poking the request structure must not change what GetItem and Scan return; R2 outputs – poking the structure returned by GetItem / Query / Scan / BatchGetItem / UpdateItem / DeleteItem(ALL_OLD) / ConditionalCheckFailed.Item must not change a later read; R3 – a result held by the caller must not change when the item is later overwritten, updated in place, deleted or the table cleared. non-trivial = the poked location lies inside a nested container or behind a pointer; distinct by (adapter, operation, path-kind sequence). Metadata inputs include an UpdateTable request carrying a BillingMode and an index creation without throughput. output/Query(index): after every poke the same request is sent again, with no write in between, and must answer as it did the first time.",
 		assumptions: commonAssumptions}})
 }
 
